@@ -59,7 +59,6 @@ pub fn run_shorts(cx: &mut Ctx, idx: u64) {
         // 3-byte strings (thorough): bare contexts only
         eps::pdu_eps(cx, &s, "bare", &what, true);
         eps::meta_ep(cx, &s, "bare", &what);
-        eps::file_eps(cx, &s, "bare", &what, Depth::Lean, false);
         for ti in 0..3 {
             eps::dataset_eps(cx, ti, &s, &what, Depth::Lean);
         }
@@ -167,7 +166,7 @@ impl Strings {
             langs.push(Lang::new("tag-classes-reduced", p, t(&TAG_RED), if thorough { 11 } else { 9 }));
         }
         for p in 3..9 {
-            langs.push(Lang::new("date-classes", p, d.clone(), if thorough { 7 } else { 5 }));
+            langs.push(Lang::new("date-classes", p, d.clone(), if thorough { 6 } else { 5 }));
         }
         let mut starts = vec![0];
         for l in &langs {
